@@ -50,6 +50,15 @@ func root() string {
 	return "/verif"
 }
 
+// outRoot is where a run writes (evidence, replays, .work); VERIF_OUT redirects it so that trying a
+// seeded change against a scratch copy of the repository does not overwrite the real evidence.
+func outRoot() string {
+	if r := os.Getenv("VERIF_OUT"); r != "" {
+		return r
+	}
+	return root()
+}
+
 func memLimit() uint64 {
 	if s := os.Getenv("VERIF_MEM_MB"); s != "" {
 		if n, err := strconv.Atoi(s); err == nil {
@@ -524,7 +533,7 @@ func crashKind(stderr string) string {
 // triageCrash re-runs the crashed shard in trace mode to find the culprit
 // leaf, then confirms it 3x in fresh processes (DESIGN.md §2.1).
 func triageCrash(res *famResult, bin string, f *Family, tier, variant string, shard []int, kind string, hang int) {
-	work := filepath.Join(root(), ".work")
+	work := filepath.Join(outRoot(), ".work")
 	os.MkdirAll(work, 0o755)
 	tf := filepath.Join(work, fmt.Sprintf("trace-%s-%d.txt", f.Name, os.Getpid()))
 	defer os.Remove(tf)
@@ -640,7 +649,7 @@ func parentMain(spec *Spec, tier string, only []string) int {
 	seed, _ := strconv.ParseInt(os.Getenv("VERIF_SEED"), 10, 64)
 	bins := variantBins()
 	// replay files of earlier runs of this check are stale
-	if old, _ := filepath.Glob(filepath.Join(root(), "replays", spec.ID+"-*.json")); len(only) == 0 {
+	if old, _ := filepath.Glob(filepath.Join(outRoot(), "replays", spec.ID+"-*.json")); len(only) == 0 {
 		for _, f := range old {
 			os.Remove(f)
 		}
@@ -743,7 +752,7 @@ func parentMain(spec *Spec, tier string, only []string) int {
 	sort.Strings(sigs)
 	nViol := 0
 	knownSeen := map[string]int64{}
-	os.MkdirAll(filepath.Join(root(), "replays"), 0o755)
+	os.MkdirAll(filepath.Join(outRoot(), "replays"), 0o755)
 	for _, s := range sigs {
 		if _, ok := open[s]; ok {
 			knownSeen[s] = violN[s]
@@ -752,7 +761,7 @@ func parentMain(spec *Spec, tier string, only []string) int {
 		nViol++
 		v := viol[s]
 		h := sha256.Sum256([]byte(s))
-		path := filepath.Join(root(), "replays", fmt.Sprintf("%s-%s.json", spec.ID, hex.EncodeToString(h[:6])))
+		path := filepath.Join(outRoot(), "replays", fmt.Sprintf("%s-%s.json", spec.ID, hex.EncodeToString(h[:6])))
 		rec := map[string]any{"property": spec.ID, "tier": tier, "violation": v, "count_in_run": violN[s]}
 		b, _ := json.MarshalIndent(rec, "", " ")
 		if nViol <= 300 {
@@ -765,7 +774,7 @@ func parentMain(spec *Spec, tier string, only []string) int {
 			fmt.Printf("(further violation signatures are not printed; replay files are written for the first 300)\n")
 		}
 	}
-	os.Remove(filepath.Join(root(), ".work", "violations-"+spec.ID+".txt"))
+	os.Remove(filepath.Join(outRoot(), ".work", "violations-"+spec.ID+".txt"))
 	if nViol > 0 {
 		// full list for triage (not evidence): .work/violations-<ID>.txt
 		var sb strings.Builder
@@ -775,8 +784,8 @@ func parentMain(spec *Spec, tier string, only []string) int {
 			}
 			fmt.Fprintf(&sb, "%s\t%d\t%s\n", s, violN[s], strings.ReplaceAll(tail(viol[s].Msg, 600), "\n", "\\n"))
 		}
-		os.MkdirAll(filepath.Join(root(), ".work"), 0o755)
-		os.WriteFile(filepath.Join(root(), ".work", "violations-"+spec.ID+".txt"), []byte(sb.String()), 0o644)
+		os.MkdirAll(filepath.Join(outRoot(), ".work"), 0o755)
+		os.WriteFile(filepath.Join(outRoot(), ".work", "violations-"+spec.ID+".txt"), []byte(sb.String()), 0o644)
 	}
 	if nViol > 40 {
 		groups := map[string]int{}
@@ -861,9 +870,9 @@ func parentMain(spec *Spec, tier string, only []string) int {
 		"violations":  nViol,
 	}
 	if len(only) == 0 {
-		os.MkdirAll(filepath.Join(root(), "evidence"), 0o755)
+		os.MkdirAll(filepath.Join(outRoot(), "evidence"), 0o755)
 		b, _ := json.MarshalIndent(ev, "", " ")
-		os.WriteFile(filepath.Join(root(), "evidence", spec.ID+".json"), append(b, '\n'), 0o644)
+		os.WriteFile(filepath.Join(outRoot(), "evidence", spec.ID+".json"), append(b, '\n'), 0o644)
 	}
 	fmt.Printf("property=%s tier=%s executions=%d states=%d distinct_nontrivial=%d outcomes=%d exhaustive=%v violations=%d wall=%.1fs\n",
 		spec.ID, tier, evals+inner, states, len(distinct), len(outcomes), exhaustive, nViol, time.Since(start).Seconds())
